@@ -124,6 +124,14 @@ def check(run):
     # ---- implementation: flat schema, contextual schema + export, validate (default/strict) on JSON documents
     jobs, exprs = [], []
     for ci, c in enumerate(cases):
+        # required-ness is decided key by key: every object document also appears with each single key removed
+        seen_docs = {val_canon(v) for v in c["vals"]}
+        for v in list(c["vals"])[:4]:
+            if v[0] == "obj":
+                for i in range(min(len(v[1]), 4)):
+                    w = OBJ(v[1][:i] + v[1][i + 1:])
+                    if val_canon(w) not in seen_docs:
+                        seen_docs.add(val_canon(w)); c["vals"].append(w)
         docs = []
         for v in c["vals"]:
             okj, py = to_py(v)
